@@ -6,7 +6,7 @@ use crate::faults::{Confine, Medium};
 use crate::model::{cut_all, cut_at, read_res, Cut, Res};
 use crate::rng::{Fnv, Rng};
 use crate::scen_common::{build, draw_capacities, draw_filter, BuildOpts};
-use crate::source::{Core, Dec, Policy, ScriptedRead};
+use crate::source::{Core, Dec, Frag, Policy, ScriptedRead};
 use dlt_core::parse::dlt_message;
 use dlt_core::read::{read_message, DltMessageReader};
 use std::cell::RefCell;
@@ -321,4 +321,47 @@ pub fn one_run(seed: u64, run: u64, tier: Tier, st: &mut Stats) -> (RunResult, O
         Some(c)
     };
     (RunResult { violations: ex.violations, hist: ex.hist }, failing)
+}
+
+/// A stream longer than the 10 MiB default BufReader capacity, read through the reader's default
+/// constructor: the refill of the default configuration happens inside a record.
+pub fn big_stream_case(prop: &str, seed: u64, idx: u64, is_async: bool) -> StreamCase {
+    let s = run_seed(seed, TAG ^ 0xB16, idx);
+    let mut rw = Rng::fork(s, 1);
+    let mut rs = Rng::fork(s, 3);
+    let storage = rw.bool();
+    let mut sw = crate::gen::Swarm::draw(&mut rw, storage);
+    sw.size_w = [1, 2, 6, 1];
+    sw.max_args = 4;
+    let target = 10 * 1024 * 1024 + 4096 + rw.below(600_000);
+    let mut medium: Vec<u8> = Vec::with_capacity(target + 70_000);
+    let mut boundaries = vec![0usize];
+    while medium.len() < target {
+        let rec = crate::gen::gen_record(&mut rw, &sw);
+        medium.extend_from_slice(&rec.bytes);
+        boundaries.push(medium.len());
+    }
+    let mut notes = vec![format!("big stream: {} bytes, {} records, default constructor", medium.len(), boundaries.len() - 1)];
+    if rw.chance(1, 3) {
+        let at = medium.len() - 1 - rw.below(5000);
+        medium.truncate(at);
+        notes.push(format!("F-TRUNC at {}", at));
+    }
+    let mut policy = Policy::draw(&mut rs, vec![], is_async);
+    policy.frag = *rs.pick(&[Frag::Full, Frag::Uniform(1 << 20), Frag::Uniform(65_536), Frag::Uniform(10 * 1024 * 1024 + 7)]);
+    policy.intr_pct = if is_async { 0 } else { 10 };
+    policy.pend_pct = if is_async { 10 } else { 0 };
+    StreamCase {
+        prop: prop.into(),
+        mode: if is_async { "poll".into() } else { "exact".into() },
+        storage,
+        medium,
+        buf_cap: 0,
+        msg_max: 0,
+        gen: Some(GenInfo { policy, sched_seed: rs.next_u64(), co_policies: vec![] }),
+        notes,
+        seed,
+        run: idx,
+        ..Default::default()
+    }
 }
